@@ -16,6 +16,6 @@ CHECK = {
                 "rewrite": {"internal/cache": ["sync", "sync/atomic"]}},
         "conc": {"pkg": "internal/cache", "run": "TestVerifC16Conc", "harness": ["internal/cache"],
                  "rewrite": {"internal/cache": ["sync", "sync/atomic"]}, "race_pass": True, "gomaxprocs": 1,
-                 "budget_s": {"quick": 60, "thorough": 900}},
+                 "budget_s": {"quick": 60, "thorough": 420}},
     },
 }
